@@ -115,3 +115,8 @@ def run(ctx):
     from .. import state as _state
 
     _state.process_state(ctx)  # spaces and their localised companions are built per space, not served from a module-level table under an incomplete key
+    from .. import fx as _fx, argbind as _ab
+
+    _fx.parameter_resolution(ctx)  # the quadrature order given with an operator is the order its assembler integrates with
+    _fx.assembler_plumbing(ctx)
+    _ab.forwarded_optionals(ctx)
